@@ -61,6 +61,41 @@ SIGN = C.Kind("sign", impl=_impl_sign, model=lambda p: "sign " + C.ut(p), judge=
               classify=_classify, nontrivial=_nontrivial, shrink=_shrink)
 
 
+class _Shouting(str):
+    """a str whose renderings differ from its characters"""
+    def __str__(self):
+        return "<packet>"
+
+    def __format__(self, spec):
+        return "<packet>"
+
+    def __repr__(self):
+        return "<packet>"
+
+
+class _Plain(str):
+    pass
+
+
+def _impl_substr(a):
+    import enum
+    kind, text = a
+    if kind == "shouting":
+        p = _Shouting(text)
+    elif kind == "plain-subclass":
+        p = _Plain(text)
+    else:
+        try:
+            p = enum.Enum("Packet", {"FRAME": text}, type=str).FRAME      # class Packet(str, Enum): FRAME = text
+        except Exception:  # noqa
+            p = _Plain(text)
+    return _impl_sign(p)
+
+
+SUBSTR = C.Kind("sign-str-subclass", impl=_impl_substr, model=lambda a: "sign " + C.ut(a[1]), judge=lambda a, o: _judge_sign(a[1], o),
+                classify=lambda a, o: a[0] + ":" + o.split(" ")[0], nontrivial=lambda a, o: (a[0], a[1][:16], o[:5]))
+
+
 def _impl_crc(a):
     return str(binascii.crc_hqx(bytes.fromhex(a[1]), a[0]))
 
@@ -68,7 +103,7 @@ def _impl_crc(a):
 CRC = C.Kind("crc_hqx", impl=_impl_crc, judge=lambda a, out: [(f"crc {a[0]} {C.hx(bytes.fromhex(a[1]))}", out)],
              classify=lambda a, o: "crc", nontrivial=lambda a, o: (a[0], o))
 
-KINDS = {"sign": SIGN, "crc_hqx": CRC}
+KINDS = {"sign": SIGN, "crc_hqx": CRC, "sign-str-subclass": SUBSTR}
 
 
 def shipped_frames():
@@ -148,6 +183,17 @@ def streams(ctx: C.Ctx):
             h[at:at] = list(rng.choice(["  ", " \t", "\n\n", "    ", "\r\n"]))
         bad.append("".join(h))
     ctx.run_cases(SIGN, "malformed", bad, exhaustive=False)
+    # refused once is refused every time: the same malformed texts again (twice), now interleaved with valid packets
+    mixed = []
+    for i, b in enumerate(bad):
+        mixed += [b, rnd[i % len(rnd)].lower()[:64] if i % 3 == 0 else b]
+    ctx.run_cases(SIGN, "malformed-texts-asked-again", mixed + bad, exhaustive=False, sample_every=max(1, len(mixed) // 2))
+    # the packet handed over as an instance of a str SUBCLASS (an enum member with str mixed in, a str whose __str__/__format__/
+    # __repr__ say something else): the text that is signed and returned is the string's own characters
+    odd = []
+    for h in frames[:10] + [x for x in rnd[:ctx.n(60, 600)]] + ["", "00", "aabb", "zz", "0"]:
+        odd += [("shouting", h), ("enum", h), ("plain-subclass", h)]
+    ctx.run_cases(SUBSTR, "packet-given-as-a-str-subclass", odd, exhaustive=False, sample_every=max(1, len(odd) // 2))
     # crc_hqx itself against the bit-serial Spec
     crcs = [(0x1021, "%02x" % b) for b in range(256)] + [(rng.randrange(65536), rng.randbytes(rng.randrange(0, 40)).hex())
                                                          for _ in range(ctx.n(1500, 20000))]
